@@ -59,8 +59,8 @@ def convF (xtol ftol : Float) (sim : List (List Float × Float)) : Bool :=
 def isZeroF (v : Float) : Bool := v == 0.0
 
 /-- reference l.196-201: `(1+nonzdelt)*y[k]` if `y[k] != 0` else `zdelt` (Model/NMInit.lean `refInitVal`, nonzdelt = 0.05) -/
-def refVal (zdelt : Float) (x0 : List Float) : List Float :=
-  refInitVal isZeroF 1.0 0.05 zdelt x0
+def refVal (nonzdelt zdelt : Float) (x0 : List Float) : List Float :=
+  refInitVal isZeroF 1.0 nonzdelt zdelt x0
 
 /-- mystic l.136-137: `val = x0*(1+radius); val[val==0] = radius**2 * 0.1` (Model/NMInit.lean `mysticInitVal`) -/
 def mysticVal (radius : Float) (x0 : List Float) : List Float :=
@@ -89,14 +89,17 @@ def handleFmin (args : List Val) : String := Id.run do
   let some maxfun := (kw? args "maxfun").bind Val.asNat? | return "bad-op"
   let some zdelt := (kw? args "zdelt").bind Val.asFloat? | return "bad-op"
   let some radius := (kw? args "radius").bind Val.asFloat? | return "bad-op"
-  let c : Coef Float := { one := 1.0, rho := 1.0, chi := 2.0, psi := 0.5, sigma := 0.5, n := Float.ofNat x0.length }
+  -- `(adaptive true)`: the coefficient selection of `_Step` (Model/NMInit.lean `mysticCoef`) at Float; both programs
+  -- get the same set ("the reference with the published adaptive coefficients")
+  let adaptive := ((kw? args "adaptive").bind Val.asBool?).getD false
+  let c : Coef Float := mysticCoef 1.0 2.0 0.5 0.75 adaptive (Float.ofNat x0.length)
   -- ties between energies make the order `numpy.argsort` returns unspecified: report them (every sorted simplex
   -- passes through the convergence oracle)
   let su : SolverDrv.Setup := { cost := cost, pen := none, cons := none, box := none }
   let out : FminOut Float Float × Bool :=
     if which == "ref" then
-      let r := refFmin cost.eval c (convF xtol ftol) (refVal zdelt) x0 maxiter maxfun
-      (r, tieScan cost.eval c (refVal zdelt) x0 (r.iterations - 1))
+      let r := refFmin cost.eval c (convF xtol ftol) (refVal radius zdelt) x0 maxiter maxfun
+      (r, tieScan cost.eval c (refVal radius zdelt) x0 (r.iterations - 1))
     else
       let r := mysticFmin su.obj c 0.0 (convF xtol ftol) (mysticVal radius) x0 maxiter maxfun
       (r, tieScan (fun y => cost.eval y + 0.0) c (mysticVal radius) x0 (r.iterations - 1))
